@@ -1,5 +1,5 @@
 """C17 — backward scales to deep graphs (exactly-once, linear work, no recursion limit) and untracked computations keep no history."""
-import gc, json, sys, weakref
+import gc, json, os, sys, weakref
 import numpy as np
 from harness import gen, monitors
 
@@ -38,7 +38,8 @@ def gen_cases(tier, seed):
         for wop in ("stack", "concat", "sum-of-terms"):
             cases.append({"kind": "linear-cost", "n": n[0], "n2": n[1], "shape": "wide:" + wop, "seed": int(rng.integers(2 ** 31))})
     for n in (1000, 10000) + ((100000,) if tier == "thorough" else (30000,)):
-        for mode in ("no_grad", "non-requiring", "detached-mix", "no_grad-with-parameter", "inside-retain_grads", "no_grad-linear", "changing-scalars"):
+        for mode in ("no_grad", "non-requiring", "detached-mix", "no_grad-with-parameter", "inside-retain_grads", "no_grad-linear", "changing-scalars",
+                     "nested-no_grad", "backward-inside-no_grad"):
             cases.append({"kind": "untracked", "n": n, "mode": mode, "seed": int(rng.integers(2 ** 31))})
     cases.append({"kind": "weakref", "seed": 0})
     for n in (300, 1000) + ((3000,) if tier == "thorough" else ()):
@@ -113,6 +114,45 @@ def run_case(ns, mon, c):
             viol.append(V("wide-graph:wrong-gradient", f"gradient of a sum of {c['n']} terms of one tensor is wrong"))
         key = ("wide", c["n"])
     elif kind == "ladder":
+        # reused intermediates (residual connections, h = h*a + h*b): first a bounded probe of the work done by the sweep - source lines executed
+        # inside library frames, a deterministic count that also sees inline loops - at depths 8 and 12; only when that is linear is the deep
+        # ladder attempted (a traversal that walks every path would need 2^depth steps there)
+        def ladder(depth, form):
+            x_ = T(np.array([1.0, -2.0]), requires_grad=True)
+            y_ = x_
+            for _ in range(depth):
+                y_ = (y_ + y_) if form == "add-self" else (y_ * 0.5 + y_ * 0.25)
+            return x_, y_.sum()
+        root_dir = os.path.realpath(ns.root) + os.sep
+        for form in ("add-self", "two-consumers"):
+            lines = []
+            for depth in (8, 12):
+                x_, out_ = ladder(depth, form)
+                cnt = [0]
+
+                def local(frame, event, arg):
+                    if event == "line":
+                        cnt[0] += 1
+                    return local
+
+                def tracer(frame, event, arg):
+                    return local if os.path.realpath(frame.f_code.co_filename).startswith(root_dir) else None
+                sys.settrace(tracer)
+                try:
+                    getattr(mon, "orig_backward", ns.Tensor.backward)(out_)
+                finally:
+                    sys.settrace(None)
+                lines.append(cnt[0])
+            counters["ladder_cost_probes"] = counters.get("ladder_cost_probes", 0) + 1
+            mon.drain()
+            if lines[0] == 0:
+                counters["ladder_cost_unobserved"] = 1
+            elif lines[1] > 3.0 * lines[0]:
+                # linear work: ratio <= 12/8 plus a constant; walking every path: 2^4 = 16
+                return {"key": ("ladder", c["depth"]), "viol": [V(f"cost:super-linear:reused-intermediates:{form}",
+                        f"the work of backward over a ladder of reused intermediates grows faster than linearly with its depth: {lines[0]} library lines "
+                        f"at depth 8, {lines[1]} at depth 12 (the deep ladder of depth {c['depth']} was not attempted)")], "counters": counters,
+                        "cover": {"scenarios": ["ladder"]}}
         x = T(np.array([1.0, -2.0]), requires_grad=True)
         y = x
         for _ in range(c["depth"]):
@@ -176,6 +216,7 @@ def run_case(ns, mon, c):
         par = T(rng.standard_normal(8) * 1e-3, requires_grad=True)          # a parameter that requires grad, used inside untracked loops
         W = T(np.eye(8) * 0.999, requires_grad=True)
         samples = []
+        losses = [(par * par).sum() * float(k_ + 1) for k_ in range(10)] if c["mode"] == "backward-inside-no_grad" else []     # built before the block, kept alive
         gc.collect()
         base = mon.live_count()
 
@@ -186,6 +227,15 @@ def run_case(ns, mon, c):
                 return w + par                              # the loop-carried value is a direct operand together with a requiring parameter
             if c["mode"] == "no_grad-linear":
                 return sg.linear(w, W)                      # (1,8) carried through a layer whose weight requires grad
+            if c["mode"] == "nested-no_grad":
+                with sg.no_grad():                          # a helper that wraps itself in no_grad, called from an evaluation loop
+                    stat = (w * w).sum()
+                return w * 0.999 + par * (0.001 + 0.0 * float(stat.data))      # ... and the outer block goes on with a requiring operand
+            if c["mode"] == "backward-inside-no_grad":
+                k2 = body.k2 = getattr(body, "k2", 0) + 1
+                if k2 % max(1, n // 12) == 1 and k2 // max(1, n // 12) < len(losses):
+                    losses[k2 // max(1, n // 12)].backward()   # an update phase under no_grad that calls backward() on a loss built before the block
+                return w * 0.99 + par * 0.01                # ... and goes on updating carried statistics that involve a parameter
             if c["mode"] == "changing-scalars":
                 k_ = body.k = getattr(body, "k", 1) + 1     # running average with a different Python number at every step
                 return w * (1.0 - 1.0 / k_) + gfix * (1.0 / k_) - 1e-3 / k_
@@ -197,7 +247,7 @@ def run_case(ns, mon, c):
                     w = body(w)
                     if (i + 1) % step == 0:
                         samples.append(mon.live_count() - base)
-        elif c["mode"] in ("no_grad", "no_grad-with-parameter", "no_grad-linear"):
+        elif c["mode"] in ("no_grad", "no_grad-with-parameter", "no_grad-linear", "nested-no_grad", "backward-inside-no_grad"):
             with sg.no_grad():
                 for i in range(n):
                     w = body(w)
